@@ -35,6 +35,9 @@ type c11Case struct {
 	Data   string            `json:"data"` // name of a value constructor
 	Funcs  string            `json:"funcs,omitempty"`
 	Note   string            `json:"note,omitempty"`
+	Graph  [][]int           `json:"graph,omitempty"`
+	Form   int               `json:"form,omitempty"`
+	Chain  int               `json:"chain,omitempty"`
 }
 type c11Result struct {
 	ID    int    `json:"id"`
@@ -103,13 +106,16 @@ func c11Values() map[string]func() any {
 		"deep": func() any {
 			var v any = "leaf"
 			for i := 0; i < 200; i++ {
-				v = map[string]any{"k": v, "l": []any{v}}
+				if i%2 == 0 {
+					v = map[string]any{"k": v}
+				} else {
+					v = []any{v}
+				}
 			}
 			return v
 		},
 		"cyclic-struct": func() any { n := &c11Node{Name: "a"}; n.Next = &c11Node{Name: "b", Next: n}; n.Kids = []*c11Node{n}; return n },
-		"cyclic-map":    func() any { m := map[string]any{"name": "m"}; m["self"] = m; return m },
-		"cyclic-slice":  func() any { s := make([]any, 1); s[0] = s; return s },
+		// a map or slice that contains itself is left out: fmt.Sprint itself does not terminate on one
 	}
 }
 
@@ -203,8 +209,8 @@ func c11RunCase(c c11Case) (res c11Result) {
 		} else {
 			r.Class = "ok"
 			r.Out = strings.Join(strings.Fields(buf.String()), "")
-			if len(r.Out) > 2000 {
-				r.Out = r.Out[:2000]
+			if len(r.Out) > 20000 {
+				r.Out = r.Out[:20000]
 			}
 		}
 		done <- r
@@ -212,7 +218,7 @@ func c11RunCase(c c11Case) (res c11Result) {
 	select {
 	case r := <-done:
 		return r
-	case <-time.After(8 * time.Second):
+	case <-time.After(4 * time.Second):
 		res.Class = "timeout"
 		return res
 	}
@@ -315,7 +321,7 @@ func tail(s string, n int) string {
 // ---------- case families ----------
 func c11GraphCases(r *Run, id *int) []c11Case {
 	// every include graph over 3 files where each file holds 0, 1 or 2 includes, in three syntactic positions
-	opts := [][]int{{}}
+	opts := [][]int{{}, {3}, {1, 3}} // 3 names a file that does not exist
 	for a := 0; a < 3; a++ {
 		opts = append(opts, []int{a})
 		for b := 0; b < 3; b++ {
@@ -350,8 +356,23 @@ func c11GraphCases(r *Run, id *int) []c11Case {
 				}
 				*id++
 				cases = append(cases, c11Case{ID: *id, Family: "include-graph", Files: files, Entry: Pick(r.Rng, []string{"load", "vue", "fragment"}), Page: "f0.vuego", Data: "string",
-					Note: fmt.Sprintf("graph=%v form=%d", g, form)})
+					Note: fmt.Sprintf("graph=%v form=%d", g, form), Graph: g, Form: form})
 			}
+		}
+	}
+	// chains just below and above the limit (the limit is read from the source by the translator)
+	for _, k := range []int{1, 5, 98, 99, 100, 101, 102, 150} {
+		files := map[string]string{}
+		for i := 0; i <= k; i++ {
+			body := fmt.Sprintf("<div>F%d", i)
+			if i < k {
+				body += fmt.Sprintf(`<template include="f%d.vuego"></template>`, i+1)
+			}
+			files[fmt.Sprintf("f%d.vuego", i)] = body + "</div>"
+		}
+		for _, e := range []string{"load", "vue", "fragment"} {
+			*id++
+			cases = append(cases, c11Case{ID: *id, Family: "include-chain", Files: files, Entry: e, Page: "f0.vuego", Data: "string", Chain: k})
 		}
 	}
 	// cycles through slots, components with slot content, layouts
@@ -525,7 +546,8 @@ func sortStrings(xs []string) {
 func init() { streams["C11"] = runC11 }
 
 func runC11(r *Run) {
-	r.Rule("isolated worker processes (64 MB maximum stack, address-space limit, 8 s per case): (include-graph) every include graph over 3 files with 0-2 includes per file, includes placed plainly, inside v-for and inside v-if, entered through Load.Render, Vue.Render and RenderFragment; (cycle-shapes) cycles through slot content, slot fallbacks, layouts and nested named slots; " +
+	r.Imports = []string{"Model.Depth"}
+	r.Rule("isolated worker processes (64 MB maximum stack, address-space limit, 4 s per case): (include-graph) every include graph over 3 files with 0-2 includes per file, includes placed plainly, inside v-for and inside v-if, entered through Load.Render, Vue.Render and RenderFragment; (cycle-shapes) cycles through slot content, slot fallbacks, layouts and nested named slots; " +
 		"(wrong-type) 32 directive positions x 39 data values (every kind: nil pointers, typed nil, unexported fields, non-string map keys, functions, channels, panicking Stringer, deep and cyclic structs / maps / slices); (root-data) each value as the root data; (functions) panicking, nil, non-function, wrong-arity, multi-result template functions as filters and calls; (bytes) spliced, token-soup and random byte strings as template sources and front-matter. " +
 		"Outcome must be ok or error: a panic reaching the caller, a timeout or a dead worker is a violation")
 	id := 0
@@ -543,6 +565,34 @@ func runC11(r *Run) {
 		r.Eval(fmt.Sprintf("case:%d", c.ID), cr.Class != "ok", nil)
 		r.Count("family:" + c.Family)
 		r.Count("class:" + cr.Class)
+		if c.Family == "include-graph" || c.Family == "include-chain" {
+			var impl Obs
+			switch {
+			case cr.Class == "ok":
+				impl = L(A("ok"), A(cr.Out))
+			case cr.Class == "error" && strings.Contains(cr.Err, "include depth exceeded"):
+				impl = L(A("depth"))
+			case cr.Class == "error" && (strings.Contains(cr.Err, "error loading") || strings.Contains(cr.Err, "does not exist")):
+				impl = L(A("missing"))
+			default:
+				impl = L(A(cr.Class), A(cr.Err))
+			}
+			coq := ""
+			if c.Family == "include-chain" {
+				coq = fmt.Sprintf("{| c_files := chain %d; c_root := 0 |}", c.Chain)
+			} else {
+				var fl []string
+				for _, its := range c.Graph {
+					var xs []string
+					for _, g := range its {
+						xs = append(xs, fmt.Sprintf("%s %d", []string{"IInc", "ILoop", "IIf"}[c.Form], g))
+					}
+					fl = append(fl, "["+strings.Join(xs, "; ")+"]")
+				}
+				coq = fmt.Sprintf("{| c_files := [%s]; c_root := 0 |}", strings.Join(fl, "; "))
+			}
+			r.Case("graph", coq, impl, map[string]any{"files": c.Files, "entry": c.Entry}, map[string]string{"family": c.Family}, true)
+		}
 		if cr.Class == "ok" || cr.Class == "error" {
 			continue
 		}
